@@ -12,8 +12,10 @@ Definition spec_exposed (f : hfield) : bool :=
 Definition spec_effective (D : dmap) (f : hfield) : option string :=
   match dlookup (dest (hf_fw f)) D with Some v => Some (dv_text v) | None => hf_default f end.
 
-(* one group per destination, titled with the class and the destination *)
-Definition spec_title (w : hwrap) : string := hw_qual w ++ " ['" ++ join_dot (hw_path w) ++ "']".
+(* one group per wrapper, titled with the class and its destination(s) - for a merged wrapper all of them, in the order
+   in which they were registered *)
+Definition spec_title (w : hwrap) : string :=
+  hw_qual w ++ " [" ++ String.concat ", " (map (fun d => "'" ++ d ++ "'") (join_dot (hw_path w) :: hw_more w)) ++ "]".
 
 (* the description of a group: what is written about the member that holds the dataclass (docstring below it, else the
    comment above it, else the inline comment), else the description part of the class docstring - shortened only when it
